@@ -35,7 +35,7 @@ ASSUMPTIONS = [
 ALPHABET = "format x scale x placement x density x request"
 BOUND = {"quick": "all formats, 4 scales x 4 placements x 2 densities x 4 requests (where expressible), buffer 8192",
          "thorough": "same with buffers {512, 8192, 65536}"}
-EXPECT_OUTCOMES = ["qcow2", "qcow2-512", "vmdk-hosted-8m", "qcow2-2m", "vmdk-hosted", "vmdk-stream", "vmdk-sesparse", "vhdx", "vhd", "vdi", "hds2", "hds1"]
+EXPECT_OUTCOMES = ["qcow2", "qcow2-512", "vmdk-hosted-8m", "qcow2-2m", "vhdx-4k", "vmdk-hosted", "vmdk-stream", "vmdk-sesparse", "vhdx", "vhd", "vdi", "hds2", "hds1"]
 MB = 1 << 20
 GROUPS = 16
 GROUP_UNITS = 400
@@ -57,6 +57,7 @@ FORMATS = {
                           places=["low", "b32", "s32", "top"]),
     "vhdx": dict(unit=32 * MB, scales={"small": 64, "4g": 130, "2t": (1 << 16) + 3, "limit": 1 << 21},
                  places=["low", "b32", "s32", "top"]),
+    "vhdx-4k": dict(unit=32 * MB, scales={"small": 64, "2t": (1 << 16) + 3}, places=["low", "b32"]),  # 4096-byte logical sectors
     "vhd": dict(unit=2 * MB, scales={"small": 512, "4g": 2050, "limit": 1044480},
                 places=["low", "b32", "top", "hdr-ffffffff", "hdr-4g", "hdr-6g", "hdr-top"]),
     "vdi": dict(unit=MB, scales={"small": 1024, "4g": 4100, "2t": (1 << 21) + 3}, places=["low", "b32", "s32", "top"]),
@@ -440,17 +441,18 @@ def _build(fmt, total, place, placed):
         img = B.build_sesparse(states, slots, 8, 64, total * 8, 0, total, cluster_base=cb)
         model = B.model(states, 8, total * 8, 0, total)
         return img, model, lambda fh: VMDK(fh)
-    if fmt == "vhdx":
+    if fmt in ("vhdx", "vhdx-4k"):
         from dissect.hypervisor.disk.vhdx import VHDX
 
         from mc.builders import vhdx as B
 
+        sec = 4096 if fmt == "vhdx-4k" else 512
         states, slots = _dense_lists(placed, total, DATA, 0, fmt=fmt)
         bat_mb, base_mb = {"low": (3, None), "b32": (4100, 8200), "s32": (4100, (1 << 22) + 64), "top": ((1 << 41), 1 << 42)}[place]
         if base_mb is None:
             base_mb = 3 + (total * 8 + (total // 64) * 8) // MB + 2
-        img = B.build(states, slots, unit, 512, total * unit - 512 * 5, bat_mb=bat_mb, base_mb=base_mb, total_blocks=total)
-        model = B.model(states, unit, 512, total * unit - 512 * 5, total_blocks=total)
+        img = B.build(states, slots, unit, sec, total * unit - sec * 5, bat_mb=bat_mb, base_mb=base_mb, total_blocks=total)
+        model = B.model(states, unit, sec, total * unit - sec * 5, total_blocks=total)
         return img, model, lambda fh: VHDX(fh)
     if fmt == "vhd":
         from dissect.hypervisor.disk.vhd import VHD
